@@ -29,6 +29,9 @@ pub struct RunStats {
     pub oracle_evals: u64,
     pub panics: u64,
     pub probes: BTreeMap<String, u64>,
+    /// maxima (aggregated by max, not by sum)
+    #[serde(default)]
+    pub maxes: BTreeMap<String, u64>,
     pub states: BTreeSet<u64>,
     pub trigrams: BTreeSet<u64>,
     pub nontrivial: bool,
@@ -39,6 +42,12 @@ pub struct RunStats {
 impl RunStats {
     pub fn probe(&mut self, k: &str) {
         *self.probes.entry(k.to_string()).or_insert(0) += 1;
+    }
+    pub fn max(&mut self, k: &str, v: u64) {
+        let e = self.maxes.entry(k.to_string()).or_insert(0);
+        if v > *e {
+            *e = v;
+        }
     }
     pub fn probe_n(&mut self, k: &str, n: u64) {
         *self.probes.entry(k.to_string()).or_insert(0) += n;
@@ -210,6 +219,8 @@ pub struct Sim {
     pub stats: RunStats,
     pub findings: Vec<Finding>,
     pub last_outcome: Vec<u8>,
+    /// C15: (family, size index, net bytes allocated, allocation calls, event)
+    pub scale_obs: Vec<(String, usize, u64, u64, usize)>,
 }
 
 pub struct Delivery<'a> {
@@ -255,6 +266,7 @@ impl Sim {
             stats: RunStats::default(),
             findings: Vec::new(),
             last_outcome: Vec::new(),
+            scale_obs: Vec::new(),
         }
     }
 
